@@ -20,19 +20,15 @@ Proof.
   intros Hne H. split; [exact (env_set_outer_unchanged _ _ _ _ H) | exact (env_set_nonempty _ _ _ _ H)].
 Qed.
 
-Lemma keeps_set_ignore en k v : en <> [] -> keeps en (env_set_ignore en k v).
+Lemma keeps_bind_args cx f ln en0 ps : forall ne ne',
+  ne <> [] -> bind_args cx f ln en0 ps ne = Ok ne' -> keeps ne ne'.
 Proof.
-  intros Hne. unfold env_set_ignore. destruct (env_set en k v) eqn:E.
-  - exact (keeps_set _ _ _ _ Hne E).
-  - apply keeps_refl; exact Hne.
-Qed.
-
-Lemma keeps_fold_ignore kvs : forall en, en <> [] ->
-  keeps en (fold_left (fun e (kv : bytes * value) => env_set_ignore e (fst kv) (snd kv)) kvs en).
-Proof.
-  induction kvs as [|kv kvs IH]; intros en Hne; simpl; [apply keeps_refl; exact Hne|].
-  pose proof (keeps_set_ignore en (fst kv) (snd kv) Hne) as K.
-  eapply keeps_trans; [exact K | apply IH; exact (proj2 K)].
+  induction ps as [|[k x] ps IH]; intros ne ne' Hne H; cbn [bind_args] in H.
+  - inversion H; subst. apply keeps_refl; exact Hne.
+  - destruct (eval_expr cx f en0 x) as [v| | | |]; try discriminate.
+    destruct (env_set ne k v) as [ne1|msg] eqn:E; [|discriminate].
+    pose proof (keeps_set _ _ _ _ Hne E) as K.
+    eapply keeps_trans; [exact K|apply IH; [exact (proj2 K)|exact H]].
 Qed.
 
 Lemma keeps_set_loop en i len : en <> [] -> keeps en (env_set_loop en i len).
@@ -175,17 +171,14 @@ Proof.
     + (* SComponent *)
       destruct block as [ss|]; try discriminate.
       destruct (match arg with
-                | Some (EObj _ pairs) =>
-                  let! kvs := eval_pairs cx f en (asort pairs) in
-                  Ok (fold_left (fun e (kv : bytes * value) => env_set_ignore e (fst kv) (snd kv)) kvs ([] :: en))
+                | Some (EObj _ pairs) => bind_args cx f ln en (asort pairs) ([] :: en)
                 | Some _ => Panic
                 | None => Ok ([] :: en)
                 end) as [en1| | | |] eqn:Ea; try discriminate.
       assert (K1 : keeps ([] :: en) en1).
       { destruct arg as [a|].
         - destruct a; try discriminate.
-          destruct (eval_pairs cx f en (asort pairs)) as [kvs| | | |]; try discriminate.
-          inversion Ea; subst. apply keeps_fold_ignore. apply cons_nonempty.
+          apply (keeps_bind_args cx f ln en (asort pairs)); [apply cons_nonempty|exact Ea].
         - inversion Ea; subst. apply keeps_refl. apply cons_nonempty. }
       destruct (eval_program cx f en1 ss []) as [[o e2]| | | |] eqn:Ep; try discriminate.
       done_ok H. cbn [fst snd].
